@@ -42,14 +42,17 @@ GenDgVirt == {D(c, 1, TRUE, dst, "1") : c \in Clients, dst \in {1, 2, 3}}
 \* datagrams delivered to the association's socket while the harness (playing Handle) is INSIDE natconn.WriteTo: a gate in the
 \* fake conn's SetReadDeadline
 GenMidVirt == {R(2, "1"), R(8, "1"), R(1, "1")}
-GenRpVirt == {R(s, "1") : s \in {1, 2, 7, 8}}
+GenRpVirt == {R(s, cls) : s \in {1, 2, 7, 8}, cls \in {"0", "1"}}
 
 \* focused families (few clients, one key): a send that fails on a live association, a DNS query answered by another host
 \* first, replies around failing sends (real sockets) ...
-GenDgFocus == {D(c, 1, TRUE, dst, "1") : c \in {1, 2}, dst \in {1, 2, 14}}
-GenRpFocus == {R(s, "1") : s \in {1, 2, 6}}
+\* (client 3 only ever names the unsendable destination: "the very first datagram of an association cannot be sent, then silence")
+GenDgFocus == {D(c, 1, TRUE, dst, cls) : c \in {1, 2}, dst \in {1, 2, 14}, cls \in {"0", "1"}} \cup {D(3, 1, TRUE, 14, "1")}
+GenRpFocus == {R(s, cls) : s \in {1, 2, 6}, cls \in {"0", "1"}} \cup {R(1, "fit1"), R(1, "big")}
 \* ... and (virtual time) a second DNS query during which a port-53 datagram arrives inside natconn.WriteTo
-GenDgVirtMid == {D(1, 1, TRUE, 2, "1"), D(1, 1, TRUE, 3, "1")}
+\* ... a client that sends once while a target keeps pushing datagrams across several timeouts, a first datagram that cannot be sent
+GenDgVirtMid == {D(1, 1, TRUE, 2, "1"), D(1, 1, TRUE, 3, "1"), D(1, 1, TRUE, 1, "1"), D(2, 1, TRUE, 3, "1")}
+GenRpVirtMid == {R(1, "1"), R(1, "0")}
 GenMidVirtMid == {R(2, "1"), R(8, "1")}
 GenInit == Init /\ done = FALSE /\ kind = 0
 NEnv == Len(tr)
